@@ -11,6 +11,9 @@ CASE_VARIANTS = ["FULL", "LEFT_SEMI", "RIGHT", "leftOuter", "Inner", "LEFT", "Cr
 ONE_PER_KIND = ["inner", "cross", "full_outer", "left", "right", "semi", "anti"]
 
 
+PROGRAM_SEED = 20261001     # seed of the random chains; oracle/c02_pyspark.jsonl holds PySpark's answers for exactly these programs
+
+
 def dref(d, n):
     return ["ref", ["df", d, n]]
 
@@ -47,6 +50,52 @@ A2 = ["where", A, b("Gt", nref("v"), ["lit", 10])]          # common ancestor: a
 A3 = ["proj", A, ["k", "s"]]                                  # common ancestor: a projection of A
 al_a, al_b = ["alias", A, "a"], ["alias", A, "b"]            # the same DataFrame under two aliases
 al_x, al_y = ["alias", A, "p"], ["alias", B, "q"]            # two DataFrames under aliases (names that are no column's name)
+
+
+# both inputs fork AFTER a filter: the shared ancestor CTE itself carries a WHERE (std data: the filter drops (1,10) and (2,20)
+# and keeps (2,21) and (NULL,30) -- key 2 survives, so a right side that lost the filter finds partners)
+F20 = ["where", A, b("Gt", nref("v"), ["lit", 20])]
+FS = ["proj", F20, ["k", "v", "s"]]                          # select after where, then the fork
+FL = ["limit", F20, 10]                                       # limit (above the row count) after where, then the fork
+F20w = ["where", F20, b("Neq", nref("s"), ["lit", "zz"])]     # one more (vacuous) step on one side only
+
+
+def filtered_ancestor(tier):
+    out = []
+    full = tier != "quick"
+    kk = names(["k"], True)
+    for fi, f in enumerate((F20, FS, FL)):
+        l, r = ["alias", f, "l"], ["alias", f, "r"]
+        forms = [kk, names(["k", "v"]), exprs([b("Eq", aref("l", "k"), aref("r", "k"))]),
+                 exprs([b("Eq", aref("l", "k"), aref("r", "k")), b("Le", aref("l", "v"), aref("r", "v"))], True)]
+        for hi, how in enumerate(ONE_PER_KIND):
+            for oi, on in enumerate(forms):
+                if not full and (fi > 0 and (oi in (1, 3) or how in ("cross", "anti"))):
+                    continue
+                out.append(case(l, [step(r, on, how)], None, "std", "filtered-ancestor"))
+        # the very same object on both sides, and one side with a further step (the duplicate CTEs then sit deeper)
+        for how in ONE_PER_KIND:
+            if not full and fi > 0 and how not in ("inner", "left", "full"):
+                continue
+            out.append(case(f, [step(f, kk, how)], None, "std", "filtered-ancestor"))
+    for how in ONE_PER_KIND:
+        out.append(case(F20w, [step(F20, kk, how)], None, "std", "filtered-ancestor"))
+        out.append(case(F20, [step(F20w, kk, how)], None, "std", "filtered-ancestor"))
+        out.append(case(["alias", F20w, "l"], [step(["alias", F20, "r"], exprs([b("Eq", aref("l", "k"), aref("r", "k"))]), how)],
+                        ["select", [[aref("l", "v"), "lv"], [aref("r", "v"), "rv"]]] if how not in ("semi", "anti") else None,
+                        "std", "filtered-ancestor"))
+        d1, d2 = ["proj", F20, ["k", "v"]], ["proj", F20, ["k", "s"]]
+        out.append(case(d1, [step(d2, kk, how)], None, "std", "filtered-ancestor"))
+        out.append(case(d1, [step(d2, exprs([b("Eq", dref(d1, "k"), dref(d2, "k"))]), how)], None, "std", "filtered-ancestor"))
+    # the two copies enter at different joins of a chain; the duplicate is then on the left side of the last join as well
+    fl, fr = ["alias", F20, "l"], ["alias", F20, "r"]
+    for how in ("inner", "left", "full"):
+        out.append(case(C, [step(fl, kk, how), step(fr, exprs([b("Eq", aref("l", "k"), aref("r", "k"))]), how)], None, "std", "filtered-ancestor"))
+        out.append(case(fl, [step(C, kk, how), step(fr, exprs([b("Eq", aref("l", "k"), aref("r", "k"))]), how)], None, "std", "filtered-ancestor"))
+        out.append(case(C, [step(fl, kk, how), step(fr, kk, how)], None, "std", "filtered-ancestor"))
+        out.append(case(fl, [step(fr, kk, how), step(C, kk, how)], ["where", b("Gt", aref("r", "v"), ["lit", 0])] if how == "inner" else None,
+                        "std", "filtered-ancestor"))
+    return out
 
 
 def on_forms(l, r, lref, rref):
@@ -230,7 +279,8 @@ def corpus():
 
 
 def gen_cases(rnd, tier, n_chains=None):
-    cs = corpus() + single_joins(tier) + joins_then(tier) + chains(rnd, n_chains or (100 if tier == "quick" else 2500))
+    cs = (corpus() + single_joins(tier) + joins_then(tier) + chains(rnd, n_chains or (100 if tier == "quick" else 2500))
+          + filtered_ancestor(tier))
     seen, out = set(), []
     for c in cs:
         k = cc.key({x: c[x] for x in ("left", "steps", "fin", "data")})
